@@ -279,6 +279,17 @@ theorem grouped_cmp_mirror (idxs : List Nat) (asc : List Bool) (a b : List (Str 
       cases hc : cellCmp ((a[i]?.map (·.2)).getD []) ((b[i]?.map (·.2)).getD []) <;> cases d <;>
         simp [oswap, ordRev, ih ds]
 
+open CellL in
+/-- **the cells of group rows are compared by a total order** (D80): `cellCmp` is mirror-symmetric and transitive
+    in all four `<` / `=` combinations for every three cells, numbers, text or a mix — it is the lexicographic
+    order of (number before text, numeric value under `f64::total_cmp`, integer spelling, text), proved from
+    the orders of ℚ, ℤ and code points; in particular `9 < 10 < 7z` can never come with `7z < 9` again -/
+theorem cell_order_is_total : IsOrd cellCmp := cellCmp_isOrd
+
+open CellL in
+theorem cell_le_transitive (x y z : Str) (h1 : cellCmp x y ≠ .gt) (h2 : cellCmp y z ≠ .gt) : cellCmp x z ≠ .gt :=
+  cellCmp_le_trans x y z h1 h2
+
 /-- numbers sort before everything that is no number, whatever their spellings: a cell that reads as a number
     is below a cell that does not, and the other way round above (`9 < 7z`, `10 < 7z`, never `7z < 9`) -/
 theorem number_before_text (x y : Str) (u : Num) (hx : parseF64? x = some u) (hy : parseF64? y = none) :
